@@ -377,6 +377,36 @@ def chk_add_unequal(edges_a, edges_b, w):
     return v
 
 
+def chk_add_tol(edges_a, edges_b, tols, style):
+    """"only for equal edges", as documented: edges are compared with math.isclose semantics under edges_abs_tol and
+    edges_rel_tol (defaults 0 and 1e-9).  tols = {} or {"abs": x, "rel": y}; style 'kw' / 'pos'.  The cases are chosen
+    well away from the threshold (factor >= 2), so rounding cannot decide."""
+    import math as _m
+    v = []
+    a = mk_hist(edges_a, tag_bins(edges_a, 1), 1)
+    b = mk_hist(edges_b, tag_bins(edges_b, 100), 2)
+    at, rt = tols.get("abs", 0.0), tols.get("rel", 1e-9)
+    close = all(_m.isclose(x, y, rel_tol=rt, abs_tol=at) for ea, eb in zip(edges_a, edges_b) for x, y in zip(ea, eb))
+    if style == "pos":
+        r, ex = exc_name(lambda: a.add(b, 1, at, rt))
+    else:
+        kw = {}
+        if "abs" in tols:
+            kw["edges_abs_tol"] = at
+        if "rel" in tols:
+            kw["edges_rel_tol"] = rt
+        r, ex = exc_name(lambda: a.add(b, **kw))
+    ctx = "histogram(%r, ..).add(histogram(%r, ..)%s) [%s]" % (hedges(edges_a), hedges(edges_b),
+                                                              "".join(", edges_%s_tol=%r" % (k, tols[k]) for k in sorted(tols)), style)
+    if close and ex is not None:
+        v.append(("histogram.add/raised-on-equal-edges", "%s raised %s although every edge pair is within the tolerance" % (ctx, ex)))
+    if not close and ex is None:
+        v.append(("histogram.add/different-edges-accepted", "%s returned %r although the edges differ by more than the tolerance" % (ctx, r)))
+    if not close and ex is not None and ex != "LenaValueError":
+        v.append(("histogram.add/wrong-exception-for-different-edges", "%s raised %s" % (ctx, ex)))
+    return v
+
+
 # ----------------------------------------------------------------------------------- get_nevents / set_nevents
 def chk_nevents(edges_md, bins, noor, n, inc, style, alias=None):
     v = []
@@ -1035,7 +1065,7 @@ def chk_shared(fn, alias, *args):
     return out
 
 
-CHECKS = {"scale": chk_scale, "add": chk_add, "add_unequal": chk_add_unequal, "nevents": chk_nevents,
+CHECKS = {"scale": chk_scale, "add": chk_add, "add_unequal": chk_add_unequal, "add_tol": chk_add_tol, "nevents": chk_nevents,
           "graph_scale": chk_graph_scale, "h2g": chk_h2g, "iter": chk_iter, "iter_ranges": chk_iter_ranges,
           "iter_coord": chk_iter_coord, "csv": chk_csv, "tocsv_flow": chk_tocsv_flow, "scale_to": chk_scale_to,
           "shared": chk_shared}
@@ -1354,6 +1384,25 @@ def body(R):
             R.case(False)
             continue
         run_case(R, "add_unequal", [em, other, rng.choice([1, 2, -0.5])] if rng.random() < 0.5 else [other, em, rng.choice([1, 3])])
+
+    R.scope("histogram.add: edges compared with the documented tolerances at every magnitude",
+            "1- and 2-dimensional edges at magnitudes 1e-10, 1e-3, 1, 1e6; the other histogram's edges equal, moved by a "
+            "relative 1e-12 (equal by default), by 25% of a bin (different by default); explicit edges_abs_tol / "
+            "edges_rel_tol (by keyword and positionally) that make the 25% shift acceptable or the 1e-12 shift not; "
+            "decision compared with element-wise math.isclose", True)
+    base1 = [0.0, 1.0, 2.0, 4.0]
+    for mag in (1e-10, 1e-3, 1.0, 1e6):
+        for dim in (1, 2):
+            em = [[x * mag for x in base1]] if dim == 1 else [[0.0, 1.0, 2.0], [x * mag for x in base1]]
+            for shift in (0.0, 1e-12, 0.25):
+                other = copy.deepcopy(em)
+                other[-1] = [x + (shift * mag if i in (1, 2) else 0.0) for i, x in enumerate(em[-1])]
+                tolsets = [{}, {"abs": 0.5 * mag}, {"abs": 0.5 * mag, "rel": 0.0}, {"rel": 0.5}, {"abs": 0.0, "rel": 0.5},
+                           {"abs": 0.0, "rel": 0.0}, {"abs": 1e-14 * mag, "rel": 1e-15}, {"abs": 0.1 * mag, "rel": 1e-15}]
+                for tols in tolsets:
+                    for style in ("kw", "pos"):
+                        run_case(R, "add_tol", [em, other, tols, style])
+                        run_case(R, "add_tol", [other, em, tols, style])
 
     # ---- get_nevents / set_nevents
     nvals = [1, 10, 2.5, -4, 0.001, 3] if T else [10, -2.5]
